@@ -128,6 +128,13 @@ def install_builtins(E):
         o, c = args
         if isinstance(o, VExc):
             return VBool(E.exc_isinstance(o, c))
+        if isinstance(c, VTuple):
+            # isinstance(x, (A, B, ...)): an instance of any of them
+            ts = [E.truth(_isinstance.fn(E, [o, ci], kw)) for ci in c.items]
+            if any(t is True for t in ts):
+                return VBool(True)
+            ts = [t for t in ts if t is not False]
+            return VBool(z3.Or(*ts)) if ts else VBool(False)
         h = E.builtins.get('__isinstance__')
         if h is not None:
             r = h(E, o, c)
